@@ -25,7 +25,14 @@ ASSUMPTIONS = ['exact arithmetic', 'dt != 0', 'limits dt->0, dt->inf and the O(d
 
 
 def jobs(tier):
-    return [(c, tier) for c in MESH_CLASSES]
+    out = [(c, tier) for c in MESH_CLASSES]
+    if tier != 'quick':
+        # thorough tier: concrete small grids (down to one cell per axis) with symbolic data
+        from ..model import DIM as _DIM
+        for c in MESH_CLASSES:
+            for sz in F.QUICK_SMALL_SIZES[_DIM[c]]:
+                out.append((c, tier, sz))
+    return out
 
 
 def flat_vector(w, name):
@@ -74,7 +81,7 @@ def explicit_step(w, sm, cells, ob, dt, r2='T2', r3='T3'):
                 expect = snap(w.call('boundary', 'cellValuesWithBoundaries', interior, bc))
                 for a in range(w.dim):
                     for g in (ZERO, w.N[a] + 1):
-                        G = tuple(g if k == a else w.t[k] for k in range(w.dim))
+                        G = tuple(g if k == a else w.g[k] for k in range(w.dim))
                         ob(r2, construct + '/ghost', is_zero(val.at(G) - expect.at(G)), f"ghost {F.cstr(G)} = {fmt_rat(val.at(G), 6)}", fe.loc())
                 ob(r2, construct + '/BCs', new.attrs.get('BCs') is bc, "the new variable carries the boundary conditions of the old one", fe.loc())
         muts = [e for e in w.ctx.events if e[0] == 'input-mutated' and (str(e[1]).startswith('phi') or str(e[1]) == 'rhs')]
@@ -83,9 +90,10 @@ def explicit_step(w, sm, cells, ob, dt, r2='T2', r3='T3'):
 
 
 def job(args):
-    cls, tier = args
+    cls, tier = args[:2]
+    sizes = args[2] if len(args) > 2 else None
     sm = SourceModel()
-    w = World(sm, cls)
+    w = World(sm, cls, sizes=sizes)
     obs, samples, units = [], [], set()
 
     def ob(rule, construct, ok, detail='', loc=''):
@@ -127,7 +135,7 @@ def job(args):
             if ok and len(samples) < 2:
                 samples.append(dict(rule='T1', cls=cls, variant=variant, cell=F.cstr(P), diag=fmt_rat(dg), rhs=fmt_rat(r)))
         # ghost rows untouched
-        G = tuple(ZERO if k == 0 else w.t[k] for k in range(w.dim))
+        G = tuple(ZERO if k == 0 else w.g[k] for k in range(w.dim))
         rg = w.matrix_row(M, G)
         vg = w.vector_at(RHS, G) if True else ZERO
         ob('T1', construct + '/ghost-rows', not rg and is_zero(vg), f"ghost cell {F.cstr(G)}: {len(rg)} matrix entries, RHS {fmt_rat(vg)}", fi.loc())
